@@ -45,3 +45,12 @@ func VerifQuantize(highResolution bool, f float32) float32 {
 	e := Encoder{highResolutionCoordinates: highResolution}
 	return e.quantize(f)
 }
+
+// VerifErrors lists the package's error values in a fixed order, so that the harness can identify an
+// error by value rather than by its message text.
+func VerifErrors() []error {
+	return []error{
+		errDrawingOpsUsedInStylingMode, errInvalidSelectorAdjustment,
+		errInvalidIncrementingAdjustment, errStylingOpsUsedInDrawingMode,
+	}
+}
